@@ -119,6 +119,25 @@ def run(ctx):
     if err.max() > 1e-9:
         i, j = np.unravel_index(np.argmax(err), err.shape)
         ctx.violation({'kind': 'orthonormality'}, {'modes': [int(i) + 1, int(j) + 1], 'inner_product': float(G[i, j])}, case=None)
+    # the azimuth convention (which axis is zero, which way it turns) is the library's own - read once from a reference mask in
+    # a clean state - but it is ONE convention: every mask, at any position, after any history of calls, uses it
+    def azimuths(mk):
+        rr_, cc_ = np.nonzero(mk)
+        dy, dx = np.indices(mk.shape)[0] - rr_.mean(), np.indices(mk.shape)[1] - cc_.mean()
+        return [np.arctan2(sb * b, sa * a) for (a, b) in ((dx, dy), (dy, dx)) for sa in (1, -1) for sb in (1, -1)]
+
+    def same_angle(a, b, sel):
+        d = np.angle(np.exp(1j * (a - b)))
+        return np.all(np.abs(d[sel]) < 1e-9)
+    refmask = np.zeros((5, 6), dtype=int)
+    refmask[1:4, 1:3] = 1
+    refmask[3, 3] = refmask[0, 1] = 1
+    rho_r, th_r = lentil.zernike_coordinates(refmask)
+    selr = (refmask != 0) & (rho_r > 1e-9)
+    conv = [k for k, cand in enumerate(azimuths(refmask)) if same_angle(th_r, cand, selr)]
+    if len(conv) != 1:
+        ctx.violation({'kind': 'azimuth-is-not-an-angle-about-the-centroid'}, {'mask': refmask.tolist(), 'theta': th_r}, case=None)
+        conv = [None]
     # ---- 4. default coordinates ----------------------------------------------------------------------------------------------------
     for c in cases[2:]:
         e = exp[c['id']]
@@ -127,6 +146,10 @@ def run(ctx):
         par = (mask.shape[0] % 2, mask.shape[1] % 2)
         ctx.case(('coords', str(c['mask'])), nontrivial=mask.sum() > 1)
         try:
+            if c['id'] % 2:
+                # the default frame does not depend on other frames having been asked for before (rotated, shifted)
+                lentil.zernike_coordinates(mask, rotate=35.0)
+                lentil.zernike_coordinates(mask, shift=(0.5, -1.0))
             rho_o, th_o = lentil.zernike_coordinates(mask)
         except Exception as ex:
             ctx.violation({'kind': 'coordinates-' + type(ex).__name__, 'parity': par}, {'mask': c['mask']}, case=None)
@@ -138,6 +161,11 @@ def run(ctx):
                           {'mask': c['mask'], 'expected_rho_sq': ers, 'observed_rho_sq': rho_o ** 2,
                            'expected_centroid': [float(sp.rf(x)) for x in e['centroid']]}, case=None)
             continue
+        if conv[0] is not None:
+            sel = (mask != 0) & (rho_o > 1e-9)
+            if sel.any() and not same_angle(th_o, azimuths(mask)[conv[0]], sel):
+                ctx.violation({'kind': 'default-azimuth-frame', 'array_parity': par}, {'mask': c['mask'], 'after_rotated_request': bool(c['id'] % 2)}, case=None)
+                continue
         # the same mask held in another memory layout (Fortran order, a transposed view) is the same mask
         for lay, mk in (('fortran', np.asfortranarray(mask)), ('transposed-view', np.ascontiguousarray(mask.T).T)):
             r2, t2 = lentil.zernike_coordinates(mk)
@@ -171,7 +199,7 @@ def run(ctx):
                     break
     ctx.traces += len(cases) + 2 * JMAX
     ctx.extra.update({'noll_indices_compared': JMAX, 'masks_for_default_coordinates': len(masks), 'orthonormality_modes': JO,
-                      'open_conventions_not_checked': ['theta orientation of default coordinates', 'global sign of sine modes']})
+                      'open_conventions_not_checked': ['global sign of sine modes'], 'azimuth_convention': 'read from a reference mask, then required of every mask and history'})
     ctx.sample({'noll_table_head_from_TLC': table[:10]}, maxn=1)
     ctx.sample({'coords_case': cases[2], 'expected_by_TLC': exp[2]}, maxn=2)
     ctx.rule = ('all Noll indices up to 66 [91]; every mode on a 7-node x 16-angle grid in both normalisations; every non-empty mask within '
